@@ -471,6 +471,8 @@ PROPS["C28"]["level_note"] = PROPS["C28"]["level_note"].replace("Single client i
 
 PROPS["C25"]["units"].append(U("harness", "cluster", "TestVerif_C25_ClusterDedicated", T(400, timeout=300), T(3000, shards=16, timeout=1500), variants=QUEUES))
 
+PROPS["C31"]["units"].append(U("harness", "cluster", "TestVerif_C31_ClusterHelpers", T(400, timeout=300), T(3000, shards=16, timeout=1500), variants=QUEUES))
+
 # ---- END PROPS (new entries go above this line)
 
 # every property without a check is listed here with its reason (kept current while building)
